@@ -7,8 +7,10 @@ import (
 	"path/filepath"
 	"runtime"
 	"sort"
+	"strconv"
 	"strings"
 	"testing"
+	"time"
 
 	"github.com/ethereum/go-ethereum/common"
 	"github.com/ethereum/go-ethereum/core/rawdb"
@@ -48,7 +50,9 @@ func genC20(r *simcore.Rand, tier string) any {
 	total := r.Range(5, 40)
 	if tier == "thorough" {
 		total = r.Range(5, 80)
-		p.MaxCuts, p.Draws = 0, 3
+		// every cut of short runs, at most 600 (sampled as in the quick tier) of long
+		// ones: a run must stay well inside the worker's watchdog
+		p.MaxCuts, p.Draws = 600, 2
 	}
 	nph := r.Pick(3, 4, 2) + 1
 	for i := 0; i < nph; i++ {
@@ -97,6 +101,19 @@ var devKnown = map[string]bool{
 	"power-loss:stale-journal-over-rewritten-history":                             true,
 	"power-loss:reboot-open-crit:freezer-virtual-tail-beyond-recovered-head":      true,
 	"process-crash:reboot-open-crit:freezer-virtual-tail-beyond-recovered-head":   true,
+}
+
+var procStart = time.Now()
+
+// overBudget reports whether the worker's wall-clock budget (plus a margin) is
+// used up: a long crash enumeration then stops after the current cut instead of
+// running into the driver's watchdog.
+func overBudget() bool {
+	b, err := strconv.Atoi(os.Getenv("VERIF_BUDGET_S"))
+	if err != nil || b <= 0 || os.Getenv("VERIF_REPLAY") != "" {
+		return false
+	}
+	return time.Since(procStart) > time.Duration(b)*time.Second+30*time.Second
 }
 
 // runCrash executes a C20 plan. The tree under test iterates maps (freezer
@@ -271,7 +288,18 @@ func runCrashOnce(t *testing.T, p *Plan) *simcore.Result {
 	fsm := simdisk.NewFSModel(w.root)
 	applied := 0
 	stats := map[string]int{}
-	for _, c := range cuts {
+	for ci, c := range cuts {
+		if ci%50 == 49 {
+			// the collector is off during scheduled worlds (see prologue); crash
+			// reboots that fail half-way through pathdb.New leave freezer files open
+			// whose descriptors are only closed by their finalizers
+			runtime.GC()
+		}
+		if overBudget() {
+			res.Faults["cuts-skipped-over-budget"] += len(cuts) - ci
+			cuts = cuts[:ci]
+			break
+		}
 		for applied < len(events) && events[applied].Seq <= c {
 			fsm.Apply(&events[applied])
 			applied++
